@@ -1,13 +1,13 @@
 /-
 Props/C09.lean — Streamed pkg_summary parsing is independent of how the bytes are
 chunked.  Property theorems only; helper lemmas live in Lemmas/.
-First pass: bookkeeping invariants of `write` that hold for EVERY input and chunking
-(nothing collected is ever dropped or reordered; no byte is lost or duplicated in
-the carry-over buffer).  The chunk-independence statement is kept visible
-(`C09_chunk_independent`) and is exercised exhaustively over single/pair cuts by
-the correspondence oracle until its Lean proof lands.
+Bookkeeping invariants of `write` that hold for EVERY input and chunking (nothing
+collected is ever dropped or reordered; no byte is lost or duplicated in the
+carry-over buffer), and the chunk-independence theorem itself
+(`C09_chunk_independent`, proof in Lemmas/Stream.lean + Lemmas/Utf8.lean).
 -/
-import PkgsrcVerif.Lemmas.Summary
+import PkgsrcVerif.Lemmas.Stream
+import PkgsrcVerif.Props.C08
 open M L
 
 theorem parseRecords_extends (acc : List Summary) (rs : List Bytes) :
@@ -68,15 +68,68 @@ theorem C09_incomplete_tail_is_not_an_error (st : Stream) (c : Bytes)
   refine ⟨?_, trivial, trivial⟩
   cases h : (utf8 (st.buf ++ c)).2 <;> simp_all
 
-/-- The property at full strength: for every well-formed stream and every partition of its
-    bytes into chunks, every write succeeds, and the final entries are those of the one-call
-    write. -/
-def C09_chunk_independent : Prop :=
-  ∀ (s : Bytes) (cs : List Bytes), cs.flatten = s →
-    (S.records s).2 = [] → (∀ r ∈ (S.records s).1, S.goodRecord r = true) →
-    let final := cs.foldl (fun st c => (st.write c).1) Stream.init
-    let one := (Stream.init.write s).1
-    final.entries.map Summary.print = one.entries.map Summary.print ∧ final.buf = []
+/-- the oracle's executable "record of a well-formed stream" is the predicate the proof uses -/
+theorem goodRecord_sound (r : Bytes) (h : S.goodRecord r = true) : GoodRec r := by
+  simp only [S.goodRecord, Bool.and_eq_true, beq_iff_eq, bne_iff_ne, ne_eq, Bool.not_eq_true',
+    List.isEmpty_eq_false_iff, Option.isNone_iff_eq_none] at h
+  obtain ⟨⟨⟨⟨⟨⟨u1, u2⟩, hp⟩, hne⟩, hh⟩, hl⟩, hs⟩ := h
+  refine ⟨?_, ?_, ⟨hne, hh, hl, hs⟩⟩
+  · unfold Complete; exact Prod.ext u1 u2
+  · cases hsp : S.parse r with
+    | error e => simp [hsp] at hp
+    | ok s' =>
+      obtain ⟨s, hs, _⟩ := (C08_model_is_spec r).2.2 s' hsp
+      exact ⟨s, hs⟩
+
+/-- **The property at full strength.**  For every well-formed stream `s` (its "\n\n"-separated
+    records are all good and nothing follows the last separator) and EVERY way `cs` of cutting
+    its bytes into successive writes — including cuts inside a multi-byte character or inside
+    the blank-line separator, empty chunks, one byte at a time —
+    every write succeeds, nothing is left in the buffer, the collected entries are exactly the
+    stream's records in order, and the final state is the one a single write of `s` produces. -/
+theorem C09_chunk_independent (s : Bytes) (cs : List Bytes) (hcs : cs.flatten = s)
+    (hrest : (S.records s).2 = []) (hgood : ∀ r ∈ (S.records s).1, S.goodRecord r = true) :
+    (runWrites Stream.init cs).2 = true ∧
+    (runWrites Stream.init cs).1.buf = [] ∧
+    (runWrites Stream.init cs).1.entries = (S.records s).1.map entryOf ∧
+    (runWrites Stream.init cs).1 = (Stream.init.write s).1 := by
+  have hg : ∀ r ∈ (S.records s).1, GoodRec r := fun r hr => goodRecord_sound r (hgood r hr)
+  have hT : s = T (S.records s).1 := by
+    have := splitSep2_join s
+    simp only [S.records] at hrest ⊢
+    rw [hrest, List.append_nil] at this
+    exact this
+  generalize (S.records s).1 = rs at hg hT ⊢
+  have key : ∀ cs' : List Bytes, cs'.flatten = s →
+      (runWrites Stream.init cs').2 = true ∧ (runWrites Stream.init cs').1.entries = rs.map entryOf ∧
+      (runWrites Stream.init cs').1.buf = [] := by
+    intro cs' h'
+    apply runWrites_chunks rs hg
+    rw [h', hT]
+    exact inv_init rs
+  obtain ⟨k1, k2, k3⟩ := key cs hcs
+  obtain ⟨o1, o2, o3⟩ := key [s] (by simp)
+  refine ⟨k1, k3, k2, ?_⟩
+  have e1 : (runWrites Stream.init [s]).1 = (Stream.init.write s).1 := by simp [runWrites]
+  rw [← e1]
+  cases hA : (runWrites Stream.init cs).1
+  cases hB : (runWrites Stream.init [s]).1
+  rw [hA] at k2 k3; rw [hB] at o2 o3
+  simp only at k2 k3 o2 o3
+  rw [k2, k3, o2, o3]
+
+/-- non-vacuity: a complete entry whose COMMENT ends in a two-byte character … -/
+def witnessRecord : Bytes :=
+  asciiBytes "BUILD_DATE=d\nCATEGORIES=c\nCOMMENT=caf" ++ [0xC3, 0xA9] ++
+  asciiBytes "\nDESCRIPTION=x\nMACHINE_ARCH=m\nOPSYS=o\nOS_VERSION=1\nPKGNAME=p-1\nPKGPATH=a/b\nPKGTOOLS_VERSION=2\nSIZE_PKG=3"
+
+/-- … gives a two-entry stream that meets the theorem's hypotheses, and the chunking
+    [first 38 bytes, rest] cuts between the two bytes of that character -/
+example :
+    let s := witnessRecord ++ [10, 10] ++ witnessRecord ++ [10, 10]
+    (S.records s).2 = [] ∧ (S.records s).1.all S.goodRecord = true ∧ (S.records s).1.length = 2 ∧
+    (s.take 38).getLast? = some 0xC3 ∧ [s.take 38, s.drop 38].flatten = s := by
+  decide +kernel
 
 /-- non-vacuity of the scan model: "é" cut after its first byte is incomplete, not invalid -/
 example : utf8 [0x41, 0xC3] = (1, .incomplete) ∧ utf8 [0x41, 0xC3, 0xA9] = (3, .complete) ∧
